@@ -138,4 +138,22 @@ example : Within99 .init [(0, 1), (1, 0), (2, 3), (4, 5)] := by
 theorem walk_never_out_early (g : Graph) (evs : List Event) (h : walk g = (evs, .panic "join_pool.rs:rnum")) :
     99 ≤ (openAfter [] evs).length := walk_pool_exhausted_late g evs h
 
+/-- RECYCLED, SMALLEST FIRST, for a whole traversal: along the events `walk` hands to the follower for ANY adjacency list
+    (whatever its verdict), every ring-closure event whose number is not open at that point (an opening) carries the
+    smallest number from 1 upward that is not open in what has been handed over so far; a number that is open is
+    closed by its next occurrence and is free again at once (`toggle`).  `LeastOpens l evs` is that statement for the
+    events `evs` starting from the open numbers `l`. -/
+theorem walk_opens_with_least_number (g : Graph) : LeastOpens [] (walk g).1 := walk_opens_least g
+
+/-! the predicate is not trivially true: handing out 2 while 1 is free violates it, reusing 1 satisfies it -/
+example : ¬ LeastOpens [] [.join .elided ⟨2, by decide⟩] := by
+  simp only [LeastOpens]; intro h
+  have := (h.1 (by decide)).2 1 (by decide) (by decide)
+  cases this
+example : LeastOpens [] [.join .elided ⟨1, by decide⟩, .join .elided ⟨1, by decide⟩, .join .elided ⟨1, by decide⟩] := by
+  simp only [LeastOpens, toggle]
+  refine ⟨fun _ => ⟨by decide, fun m h1 h2 => by omega⟩, ?_, ?_, trivial⟩
+  · intro h; exact absurd (by decide) h
+  · intro _; exact ⟨by decide, fun m h1 h2 => by omega⟩
+
 end Purr.C13
